@@ -86,6 +86,47 @@ void harness(void)
 	VP_ASSERT(i == K && it == NULL, "every inserted node is in the list exactly once");
 	VP_REACH("flat");
 }
+#elif MODE == 3
+/*
+ * child_by_name(): the lookup every insertion goes through (duplicate
+ * detection, implicit directories).  It must find a sibling iff its name is
+ * EXACTLY the queried component - otherwise whether "lib" is taken for
+ * "lib64" depends on which of the two the host returned first.
+ */
+void harness(void)
+{
+	char q[NL + 2];
+	size_t i, len = ND_SZ();
+	tree_node_t *r;
+	int exists = 0;
+
+	ROOT.name[0] = 0;
+	ROOT.n.name = ROOT.name;
+	ROOT.n.mode = S_IFDIR | 0755;
+	for (i = 0; i < K; ++i) {
+		mk(&KID[i], 1);
+		for (size_t j = 0; j < i; ++j)
+			VP_ASSUME(strcmp(KID[i].name, KID[j].name) != 0);
+		insert_sorted(&ROOT.n, &KID[i].n);
+	}
+	/* the query is a path component: len bytes, followed by anything ('/' or NUL in practice) */
+	for (i = 0; i < NL + 2; ++i) q[i] = (char)ND_U8();
+	VP_ASSUME(len >= 1 && len <= NL);
+	for (i = 0; i < NL; ++i) if (i < len) VP_ASSUME(q[i] != 0);
+
+	r = child_by_name(&ROOT.n, q, len);
+
+	for (i = 0; i < K; ++i)
+		if (strlen(KID[i].name) == len && memcmp(KID[i].name, q, len) == 0)
+			exists = 1;
+	if (r != NULL) {
+		VP_ASSERT(strlen(r->name) == len && memcmp(r->name, q, len) == 0, "C11: a lookup only ever returns the sibling whose name is exactly the component (never a longer name it is a prefix of)");
+		VP_REACH("found");
+	} else {
+		VP_ASSERT(!exists, "C11: an existing sibling is always found");
+		VP_REACH("not_found");
+	}
+}
 #else
 /*
  * numbering / inode table / data order are a function of the sorted list
